@@ -66,21 +66,37 @@ BS4_FIRST = ('import bs4', 'from bs4 import BeautifulSoup', 'import bs4.element'
 
 OPTIONAL = ['lxml', 'html5lib', 'chardet', 'charset_normalizer', 'cchardet']
 
-PROBES = [
-    {'markup': '<div><p id="a" class="x">one</p><p id="b" lang="en">two</p><span>three</span></div>', 'selector': 'p:nth-child(2)'},
-    {'markup': '<html lang="de"><head><meta http-equiv="content-language" content="en"></head><body><p>a</p><p lang="en">b</p></body></html>',
-     'selector': ':lang(en)'},
-    {'markup': '<form><input type="radio" name="r"><input type="radio" name="r" checked><input type="submit"><button>x</button></form>',
-     'selector': ':default, :indeterminate'},
-    {'markup': '<ul><li>1</li><li class="c">2</li><li>3</li></ul>', 'selector': 'li:not(.c):nth-of-type(odd)'},
-    {'markup': '<div><a href="#x">l</a><p>t <b>bold</b></p></div>', 'selector': 'div:has(> a:any-link) b'},
-    {'markup': '<div dir="rtl"><p>x</p><input type="number" min="0" max="5" value="7"></div>', 'selector': ':dir(rtl), :out-of-range'},
-    {'markup': '<p>hello world</p><p>bye</p>', 'selector': 'p:-soup-contains("hello")'},
-    {'markup': '<div id="d"><x-foo>c</x-foo><svg><circle r="1"/></svg></div>', 'selector': ':defined, :root > *'},
-    {'markup': '<?xml version="1.0"?><root xmlns:x="urn:x-test"><x:item k="1">a</x:item><item>b</item></root>',
-     'selector': 'x|item, item:first-child', 'namespaces': {'x': 'urn:x-test'}, 'xml': True},
-    {'markup': '<div><p>a</p><p>b</p><p>c</p></div>', 'selector': 'p:nth-last-child(-n+2):is(:scope p, p)'},
+PROBE_DOCS = [
+    '<div><p id="a" class="x">one</p><p id="b" lang="en">two</p><span>three</span></div>',
+    '<!DOCTYPE html><html lang="de"><head><meta http-equiv="content-language" content="en"></head><body><p>a</p>'
+    '<p lang="en">b</p><!-- trailing --></body></html>',
+    '<form><input type="radio" name="r"><input type="radio" name="r" checked><input type="submit"><button>x</button></form>'
+    '<form><input type="radio" name="q"><input type="submit"></form>',
+    '<ul><li>1</li><li class="c">2</li><li>3</li></ul>',
+    '<div><a href="#x">l</a><p>t <b>bold</b></p></div>',
+    '<div dir="rtl"><p>x</p><input type="number" min="0" max="5" value="7"><bdi>\u05e9\u05dc\u05d5\u05dd</bdi></div>',
+    '<p>hello world</p><p>bye</p>',
+    '<div id="d"><x-foo>c</x-foo><svg><circle r="1"/></svg></div>',
+    '<!DOCTYPE html>\n<!-- lead --><html><body><p id="a"><!-- hidden note --></p><p id="b">note</p><p id="c"> </p>'
+    '<?pi x?></body></html>',
+    '<div><p>a</p><p>b</p><p>c</p></div>',
+    '<html><body><iframe><html lang="fr"><body><p>in</p><form><input type="submit"></form></body></html></iframe>'
+    '<p lang="en">out</p></body></html>',
+    '<div><!-- only a comment --></div><div></div><div> </div><div>x</div>',
 ]
+PROBE_XML = [
+    '<?xml version="1.0"?><root xmlns:x="urn:x-test"><x:item k="1">a</x:item><item>b</item></root>',
+    '<?xml version="1.0"?><!-- c --><root><item><![CDATA[cd]]></item><item><!-- only comment --></item><?pi y?>'
+    '<item xml:lang="en">t</item></root>',
+]
+PROBE_SELECTORS = [
+    'p:nth-child(2)', ':lang(en)', ':default, :indeterminate', 'li:not(.c):nth-of-type(odd)', 'div:has(> a:any-link) b',
+    ':dir(rtl), :out-of-range', 'p:-soup-contains("hello")', ':defined, :root > *', 'p:nth-last-child(-n+2):is(:scope p, p)',
+    ':root', ':empty', 'p:-soup-contains("note")', 'html:root > body p', ':-soup-contains-own(note)', 'div:empty, p:empty',
+    ':checked', ':enabled', ':link', ':lang("")', ':not(:lang(en))', ':is(p, li):first-child', ':has(+ p)', '*',
+    ':read-write', ':required, :optional', 'iframe p', ':only-child', ':dir(ltr)',
+]
+XML_SELECTORS = ['x|item, item:first-child', 'item:empty', ':root', 'item:-soup-contains(cd)', ':lang(en)', 'item:nth-child(2)', '*']
 
 
 def gen_job(rng):
@@ -98,14 +114,17 @@ def gen_job(rng):
     elif r < 0.55:
         blocked = sorted(rng.sample(OPTIONAL, rng.randint(1, 3)))
     switches = rng.choice([[], [], [], [], ['-O'], ['-OO'], ['-B'], ['-O', '-B'], ['-s']])
-    probe = dict(rng.choice(PROBES))
-    if probe.pop('xml', False):
+    if rng.random() < 0.15:
+        probe = {'markup': rng.choice(PROBE_XML), 'selector': rng.choice(XML_SELECTORS)}
+        if probe['selector'].startswith('x|'):
+            probe['namespaces'] = {'x': 'urn:x-test'}
         parser = 'xml' if 'lxml' not in blocked else 'html.parser'
     else:
-        avail = ['html.parser'] + [p for p in ('lxml', 'html5lib') if p not in blocked]
+        probe = {'markup': rng.choice(PROBE_DOCS), 'selector': rng.choice(PROBE_SELECTORS)}
+        avail = ['html.parser', 'html.parser'] + [p for p in ('lxml', 'html5lib') if p not in blocked]
         parser = rng.choice(avail)
     probe['parser'] = parser
-    probe['target'] = rng.randint(0, 5)
+    probe['target'] = rng.randint(0, 3)
     return {'program': program, 'blocked': blocked, 'switches': switches, 'probe': probe}
 
 
